@@ -73,10 +73,10 @@ def completeEdgesR (x : RawR) : RawR :=
   if x.faces.isEmpty then x
   else
     { x with
-      edges := completeBy (fun r => keyE r.val) x.edges ((x.faces.flatMap (fun f => faceSides f.val)).map Row.tuple),
+      edges := completeBy (fun r => keyE r.val) x.edges ((validSides x.verts.length (x.faces.map Row.val)).map Row.tuple),
       eattrs := (if hasAttr x.eattrs hardName then x.eattrs else x.eattrs ++ [hardAttr x.edges.length]).map
         (expandAttr ((completeBy (fun r => keyE r.val) x.edges
-          ((x.faces.flatMap (fun f => faceSides f.val)).map Row.tuple)).length - x.edges.length)) }
+          ((validSides x.verts.length (x.faces.map Row.val)).map Row.tuple)).length - x.edges.length)) }
 
 def prepareVerticesR (x : RawR) : RawR := { x with verts := x.verts.map padVertex }
 
